@@ -91,6 +91,8 @@ REPL = [None, 0, 7, -1, 1.5, True, False, "", "x", [], [1], ["x"], {}, {"a": 1},
         # further value classes: digits that int() refuses, repeat counts beyond the regex engine, mixed key types
         "1\u00b2m", "\u00b2h", "\u2460d", "\u0663m", "+5m", " 5m", {"f|re": "a{99999999999}"}, {"gte": 1, "__k__:1": "x"},
         {"sel": {"f": "x"}, "__k__:1": {"g": 1}, "condition": "not sel", "rules": "any"},
+        # a non-string scalar key next to its quoted twin: two different keys of one map
+        {"__k__:4688": "x", "4688": "y"}, {"__k__:true": 1, "true": 2}, {"__k__:null": 1, "null": 2}, {"__k__:1.5": 1, "1.5": 2},
         "2024/4/31", "2023/02/29", "2024/06/31", "2024/13/1", "2024/0/10", "2024-02-30", "2024-04-31", "3999/12/31", "999/1/1", "2024/2/29",
         {"sel": {"f": "x"}, "__k__:1": {"g": 1}, "condition": "1 of them"}, {"sel": {"f": "x"}, "__k__:1.5": {"g": 1}, "condition": "all of s*"},
         {"sel": {"f": "x"}, "__k__:null": {"g": 1}, "condition": "1 of *"}, {"sel": {"f": "x"}, "__k__:true": {"g": 1}, "condition": "sel and 1 of them"},
